@@ -12,8 +12,12 @@ trap 'git -C /repo worktree remove --force "$wt"; rm -rf "$out_root"' EXIT
 git -C "$wt" apply "$dir/patch.diff" || { echo "seedtest: patch does not apply"; exit 3; }
 out_root=$(mktemp -d /tmp/seedout.XXXXXX)
 cp known_findings.json properties.jsonl "$out_root/"
+out=$(VERIF_REPO="$wt" VERIF_OUT="$out_root" ./run.sh multi $tier "$@" 2>&1)
 for id in "$@"; do
-  out=$(VERIF_REPO="$wt" VERIF_OUT="$out_root" ./run.sh $id $tier 2>&1); code=$?
-  first=$(echo "$out" | grep -A1 -m1 "^VIOLATION" | tail -1 | cut -c1-300)
-  echo "$id exit=$code :: $(echo "$out" | grep "$id $tier:" | sed 's/.*violations=/violations=/' | cut -c1-50) :: $first"
+  # the part of the output that belongs to this check: up to its "== id exit=" line
+  part=$(echo "$out" | awk -v id="$id" '$1=="==" && $2==id {print; exit} {print}' | tac | awk -v id="$id" 'NR==1 {print; next} $1=="==" {exit} {print}' | tac)
+  code=$(echo "$part" | sed -n "s/^== $id exit=//p")
+  [ -z "$code" ] && code=$(echo "$out" | grep -q "does not load/build\|does not build" && echo 2 || echo 3)
+  first=$(echo "$part" | grep -A1 -m1 "^VIOLATION" | tail -1 | cut -c1-300)
+  echo "$id exit=$code :: $(echo "$part" | grep "$id $tier:" | sed 's/.*violations=/violations=/' | cut -c1-50) :: $first"
 done
